@@ -24,7 +24,8 @@ RULE = (
     "programs = every forecaster of the menu (elementary, statsmodels adapters, 8 reductions, "
     "ensemble, pipeline, stacking, multiplexer, tuner, depth-2 nestings); for each program x "
     "horizon (non-empty subsets of {1..4}, <=2 steps quick / <=3 thorough) x horizon passing "
-    "mode (fit / predict; relative list, array, ForecastingHorizon, absolute ForecastingHorizon) "
+    "mode (fit / predict; relative list, array, ForecastingHorizon, absolute ForecastingHorizon, "
+    "relative / absolute pandas Index given in scrambled order) "
     "the complete tree of call histories over {predict, update(size in {1,3} (thorough 1..3), "
     "update_params in {T,F})} up to depth 3 after fit is executed on a fresh object, and again "
     "on a twin whose labels are shifted by +7. state = (cutoff, memory, params epoch) fingerprint; "
@@ -39,7 +40,7 @@ ASSUMPTIONS = [
 ]
 
 FHMODES = ["fit_rel_list", "pred_rel_list", "pred_rel_array", "pred_rel_fh", "pred_abs_fh",
-           "fit_rel_fh"]
+           "fit_rel_fh", "pred_rel_uindex", "pred_abs_ufh", "fit_rel_uindex"]
 IDX = [("range", 0), ("range", 5), ("index", 0), ("index", 5)]
 
 
@@ -58,7 +59,8 @@ def gen_cases(tier, seed):
             for mode in FHMODES:
                 if fmenu.needs_fh_at_fit(spec) and not mode.startswith("fit"):
                     continue
-                if slow and tier == "quick" and mode in ("pred_rel_array", "fit_rel_fh"):
+                if slow and tier == "quick" and mode in ("pred_rel_array", "fit_rel_fh",
+                                                        "fit_rel_uindex", "pred_abs_ufh"):
                     continue
                 combos = [IDX[(i + seed) % 4]] if tier == "quick" else IDX
                 for ik in combos:
@@ -79,9 +81,19 @@ def _series(n_total, fam, kind, start):
     return pd.Series(v, index=idx)
 
 
+def _scr(steps):
+    s = list(steps)
+    return s[1:] + s[:1] if len(s) > 1 else s
+
+
 def _mk_fh(steps, mode, cutoff):
     from sktime.forecasting.base import ForecastingHorizon
 
+    if mode.endswith("rel_uindex"):  # pandas Index given in scrambled order
+        return pd.Index(_scr(steps), dtype="int64")
+    if mode.endswith("abs_ufh"):
+        return ForecastingHorizon(pd.Index([cutoff + s for s in _scr(steps)], dtype="int64"),
+                                  is_relative=False)
     if mode.endswith("rel_list"):
         return list(steps)
     if mode.endswith("rel_array"):
